@@ -15,7 +15,10 @@ func ShouldIncludeNode(directives []*Directive) (bool, error) {
 	skipDirective := findDirectiveWithName(directives, SKIP)
 	if skipDirective != nil {
 		b, err := parseIf(skipDirective)
-		return !b, err
+		if err != nil || b {
+			return !b, err
+		}
+		// Not skipped: an @include on the same node still has its say.
 	}
 
 	includeDirective := findDirectiveWithName(directives, INCLUDE)
